@@ -60,6 +60,20 @@ theorem rstrip_table_keeps (emp : Nat → Bool) (t : Odf.Table.Tbl) (h : Odf.Tab
   rw [tblRstrip_refines emp t h]
   exact gridRstrip_keeps emp (Odf.Table.absT t) x y row v hrow hv hne
 
+/-- **`Table.transpose()` on run-length XML denotes the transposed grid**, for every state, and the table it
+    builds is coherent -/
+theorem transpose_refines (t : Odf.Table.Tbl) :
+    Odf.Table.absT (tblTranspose t) = transposeG (Odf.Table.absT t) ∧ Odf.Table.Inv (tblTranspose t) :=
+  ⟨tblTranspose_refines t, tblTranspose_inv t⟩
+
+/-- hence transposing the run-length table twice gives back its matrix, every row completed with empty
+    cells to the common width (for every table holding at least one cell) -/
+theorem transpose_table_twice (t : Odf.Table.Tbl) (hw : 0 < maxLen (Odf.Table.absT t).rows) :
+    (Odf.Table.absT (tblTranspose (tblTranspose t))).rows =
+      (Odf.Table.absT t).rows.map (fun r => padRow r (maxLen (Odf.Table.absT t).rows)) := by
+  rw [tblTranspose_refines, tblTranspose_refines]
+  exact transposePad_involutive _ hw
+
 /-! non-vacuity: a ragged run-length table with styled empties (payload 1) and trailing empties -/
 example :
     let t := Odf.Table.parse [(0, 2), (0, 3)] [([(5, 1), (0, 2), (1, 2)], 2), ([(0, 5)], 1), ([(0, 1), (1, 1)], 3)]
